@@ -271,5 +271,9 @@ m("C19", "C19-kind-test-before-closed-test", "R19-closed:fileWriteAux:closed-tes
 m("C15", "C15-char-wraps", "R15-positions:strChar:argument-in-0..255", ("stringlib.go", "\t\tif c < 0 || c > 255 {\n\t\t\tL.ArgError(i, \"invalid value\")\n\t\t}\n", ""))
 
 m("C16", "C16-constant-condition-numeral-unchecked", "R16-onereader:numeral-checked-where-recognised:compileBranchCondition", ("compile.go", "\t\tif nex, ok := expr.(*ast.NumberExpr); ok {\n\t\t\t// a constant condition is not evaluated, but its numeral must still be one\n\t\t\tif _, err := parseNumber(nex.Value); err != nil {\n\t\t\t\traiseCompileError(context, sline(nex), \"malformed number near '%s'\", nex.Value)\n\t\t\t}\n\t\t}\n", ""))
+
+m("C10", "C10-insert-leaves-holes", "R10-bounds:Insert:gap-filled-with-nil", ("state.go", "\t\t// the positions the list did not have yet hold nil\n\t\tfor i := top; i < reg; i++ {\n\t\t\tls.reg.Set(i, LNil)\n\t\t}\n", ""))
+m("C10", "C10-concat-of-nothing", "R10-bounds:Concat:nothing-to-concatenate-reads-nothing", ("state.go", "\tif len(values) == 0 {\n\t\treturn \"\"\n\t}\n\ttop := ls.reg.Top()\n\tfor _, value := range values {", "\ttop := ls.reg.Top()\n\tfor _, value := range values {"))
+m("C09", "C09-foreach-over-snapshot", "R10-bounds:ForEach:array-length-read-on-every-step", ("table.go", "\t\tfor i := 0; i < len(tb.array); i++ {\n\t\t\tif v := tb.array[i]; v != LNil && v != nil {", "\t\tfor i, v := range tb.array {\n\t\t\tif v != LNil && v != nil {"))
 if __name__ == "__main__":
     main()
